@@ -294,7 +294,7 @@ func (x *executor) addModules(a interfaces.IApp) {
 	}
 }
 
-const hangAfter = 4 * time.Second
+const hangAfter = 3 * time.Second
 
 // guarded runs f on its own goroutine (delayed completions arrive on other goroutines
 // than the one that called Start) and waits for it.
